@@ -24,7 +24,10 @@ RULE = (
     "generate(0, True, +1), of(1).pipe(repeat())} -> 0..3 element-wise operators {map, alternating filter, "
     "filter_indexed, skip(k), do_action, scan, pairwise, map_indexed, default_if_empty, as_observable, take(10**6)} -> "
     "optional wrapper {merge(never) op/fn, flat_map(of) / as inner of flat_map, concat prefix/suffix, switch_map(of) / as "
-    "inner of switch_map, share, amb(never) op/fn, with_latest_from(of), combine_latest(of, src) / (src, of)} -> "
+    "inner of switch_map, share, amb(never) op/fn, with_latest_from(of), combine_latest(of, src) / (src, of), "
+    "merge(max_concurrent=k) over from_iterable([finite inners.., src, ..]) with k in {1, 2} and 0-2 finite inners (of(-1) / "
+    "empty()) in front of src, so that src is either given a free slot directly or has to wait in merge's queue and is "
+    "subscribed later from the on_completed of an earlier inner (classes mc-inner-started-from-queue / -directly)} -> "
     "terminator {take(k), first, first(pred), take_while (incl.), element_at, take_until(subject fired synchronously "
     "at the j-th element / trigger emitting inside subscribe), find, find_index, some, contains, is_empty, first_or_default, "
     "all, element_at_or_default, slice / source[a:b], skip+first, skip_last+take, buffer_with_count+first, "
@@ -52,6 +55,7 @@ ASSUMPTIONS = [
     "scheduler configurations listed as open findings in known_findings.json are excluded by construction except for a thin sample (simple shapes + 1/48) and counted; likewise listed starvation call sites (source|wrapper), sample 1/8",
     "stacks of two wrappers exclude switch_map behind a wrapper that interleaves several never-ending producers (every trampolined inner is legitimately pre-empted, termination is not determined)",
     "a per-case process watchdog (240 one-second wake-ups without progress, then stack dump and os._exit) exists only as a backstop; its trip is a harness error, never a verdict",
+    "merge(max_concurrent=k) shapes: the outer observable is a finite from_iterable list without an explicit scheduler; a terminator that is satisfied by the finite inners alone never subscribes the never-ending inner (counted as held, trivial with respect to that inner); the quick product uses every other terminator for these six wrappers and two of them in 'stacked'",
     "'at source' configurations only exist for factories that accept a scheduler (from_iterable, range, the of(1) inside repeat)",
     "RecursionError (escaping or delivered as on_error) counts as unbounded work just like BudgetExceeded",
 ]
@@ -124,6 +128,19 @@ WRAPS_INF = [
     "combine_latest_inf_first",
     "combine_latest_src_first_inf",
 ]
+# merge(max_concurrent=k) over an outer from_iterable([...inners...]) (the max_concurrent overload has its own code: a
+# waiting queue of inner observables that are subscribed later, from the on_completed of an earlier inner).  "S" is the
+# never-ending source under test, "of" = of(-1), "empty" = empty().  name -> (k, inners, S is started from the queue)
+MC_SHAPES = {
+    "merge_mc1_after_empty": (1, ["empty", "S"], True),
+    "merge_mc1_after_of": (1, ["of", "S"], True),
+    "merge_mc2_after_two": (2, ["of", "empty", "S"], True),
+    "merge_mc1_after_two": (1, ["empty", "of", "S", "of"], True),
+    "merge_mc2_direct": (2, ["of", "S"], False),
+    "merge_mc1_first": (1, ["S", "of"], False),
+}
+WRAPS_MC = list(MC_SHAPES)
+WRAPS_MC_STACKED = ["merge_mc1_after_of", "merge_mc2_after_two"]
 EW_SAMPLES = [
     [],
     [["map"]],
@@ -426,6 +443,10 @@ def _wrap(name, s, bud=None):
 
         return reactivex.generate(0, cond, lambda x: x + 1)
 
+    if name in MC_SHAPES:
+        k, inners, _queued = MC_SHAPES[name]
+        items = [s if i == "S" else (of(-1) if i == "of" else reactivex.empty()) for i in inners]
+        return reactivex.from_iterable(items).pipe(ops.merge(max_concurrent=k))
     if name == "merge_inf":
         return s.pipe(ops.merge(inf()))
     if name == "flat_map_inf":
@@ -646,6 +667,10 @@ def _run_inner(case, force=False):
         cls.append("stacked-wrappers")
     if case["wrap"] in WRAPS_INF or case.get("wrap2") in WRAPS_INF:
         cls.append("infinite-partner")
+    for w in (case["wrap"], case.get("wrap2")):
+        if w in MC_SHAPES:
+            cls.append("merge-max-concurrent")
+            cls.append("mc-inner-started-from-queue" if MC_SHAPES[w][2] else "mc-inner-started-directly")
     for k in range(1 + resub):
         # the SAME pipeline object is subscribed again after the previous subscription returned; every subscription
         # gets a fresh pull counter / budget and fresh harness predicates, and must satisfy the same oracle
@@ -811,8 +836,8 @@ def _product(tier):
     terms = TERMS_QUICK if tier == "quick" else TERMS_QUICK + TERMS_MORE
     idx = 0
     for src in SOURCES:
-        for wrap in WRAPS + WRAPS_INF:
-            for term in terms:
+        for wrap in WRAPS + WRAPS_INF + WRAPS_MC:
+            for term in (terms[::2] if tier == "quick" and wrap in MC_SHAPES else terms):
                 for cfg in _configs_for(src):
                     ews = [EW_SAMPLES[idx % len(EW_SAMPLES)]] if tier == "quick" else [EW_SAMPLES[idx % len(EW_SAMPLES)], EW_SAMPLES[(idx + 4) % len(EW_SAMPLES)]]
                     for ew in ews:
@@ -837,7 +862,7 @@ def _stack_ok(w1, w2):
 
 def _stacked(tier):
     """Two wrappers applied one after the other (all ordered pairs), default / singleton scheduler."""
-    ws = [w for w in WRAPS if w is not None] + WRAPS_INF
+    ws = [w for w in WRAPS if w is not None] + WRAPS_INF + (WRAPS_MC_STACKED if tier == "quick" else WRAPS_MC)
     terms = [["take", 3]] if tier == "quick" else [["take", 3], ["first"], ["take_while", 3]]
     cfgs = ["default"] if tier == "quick" else ["default", "ct_singleton@subscribe"]
     idx = 0
@@ -904,8 +929,8 @@ def _deep(draw):
     src = draw(st.sampled_from(SOURCES))
     cfgs = _configs_for(src)
     weighted = [c for c in cfgs for _ in range(3 if c == "default" else (2 if c.startswith("ct_singleton") else 1))]
-    w1 = draw(st.sampled_from(WRAPS + WRAPS_INF))
-    w2 = draw(st.sampled_from([None, None] + WRAPS[1:] + WRAPS_INF))
+    w1 = draw(st.sampled_from(WRAPS + WRAPS_INF + WRAPS_MC))
+    w2 = draw(st.sampled_from([None, None] + WRAPS[1:] + WRAPS_INF + WRAPS_MC))
     if w1 is None or not _stack_ok(w1, w2):
         w2 = None
     return {
